@@ -44,13 +44,13 @@ PROP = 'C10'
 TIERS = {
     'quick': dict(n=3, pipe_full=2, pipe_nested_full=2, pipe_allforms=1,
                   pipe_full_positions=strlit.POSITIONS,
-                  pipe_sample=100,
+                  pipe_sample=100, flag_vals=30,
                   pipe_batch=40, sql_extra=14, sql_batch=50,
                   flag_cfgs=['FlagsQ1', 'FlagsQ2'], flag_model_only=[],
                   flag_sim=None, grow_sample=12, flag_pipe=60),
     'thorough': dict(n=4, pipe_full=3, pipe_nested_full=2, pipe_allforms=2,
                      pipe_full_positions=('fact', 'record', 'user'),
-                     pipe_sample=1200,
+                     pipe_sample=1200, flag_vals=400,
                      pipe_batch=40, sql_extra=230, sql_batch=50,
                      flag_cfgs=['FlagsT1', 'FlagsT2'],
                      flag_model_only=['FlagsT3'],
@@ -83,6 +83,13 @@ RULE = (
     'results + compiled statements + flag outcomes.')
 
 
+# Flag values that look like numbers / keywords: they are strings all the same.
+NUMERIC = ['02139', '007', '00', '0', '1', '-1', '-0', '+1', '1.50', '3.0',
+           '.5', '5.', '1e3', '0x10', '123456789012345678901234567890',
+           '9223372036854775808', 'true', 'null', 'NULL', '']
+_NUMERIC_RE = re.compile(r'^-?\d+(\.\d+)?$')
+
+
 def _Log(msg):
   print('[c10] ' + msg, flush=True)
 
@@ -108,7 +115,7 @@ def _Selections(cfg):
   must += ['%s', ' %s ', '%d{1}', '{0}', '{0}{1}', '%(a)s', '%%s', '{{0}}',
            '\\\u0414', 'a\\\u0414\\\u2192', '\\\u2192', '\\\u00e9',
            '\\\U0001D11E', "\\\u0414'"]
-  for s in must:
+  for s in must + NUMERIC:
     if s not in sample and s not in full:
       sample.append(s)
   return alls, full, sample
@@ -153,12 +160,26 @@ def _PipeTasks(cfg, full, sample):
   tasks += strlit.PipeTasks(rest, cfg['pipe_batch'], forms_for=Primary)
   tasks += strlit.PipeTasks(fn_rest, cfg['pipe_batch'], forms_for=Primary,
                             positions=strlit.FN_POSITIONS)
+  # Flag values read through FlagValue / ${flag} in other places than the head
+  # of a fact: the number-looking values, the shortest strings and a slice of
+  # the sample; the raw ${flag} form only for values without SQL-special
+  # characters (it is textual substitution by design).
+  fvals = NUMERIC + [s for s in full if len(s) == 1] + sample[:cfg['flag_vals']]
+  plain = [s for s in fvals if not set(s) & set('\'"\\\n\t${}`')]
+
+  def FlagForms(s, pos, ctx):
+    if pos.endswith('param') and s not in plain:
+      return []
+    return ['argv', strlit.PrimaryForm(s)]
+  tasks += strlit.PipeTasks(list(dict.fromkeys(fvals)), cfg['pipe_batch'],
+                            forms_for=FlagForms,
+                            positions=strlit.FLAG_POSITIONS)
   return tasks
 
 
 def _SqlStrings(cfg, full, sample):
   rng = common.Rng('c10-sql')
-  base = [s for s in full if len(s) <= 1]
+  base = [s for s in full if len(s) <= 1] + ['02139', '1.50', '-0', 'true']
   pool = [s for s in full if len(s) > 1] + sample
   return base + rng.sample(pool, min(cfg['sql_extra'], len(pool)))
 
@@ -189,7 +210,8 @@ def _StringSignatures(rec, verdict, unit_bad=frozenset()):
   sig = {'k': rec['k'], 'why': why}
   detail = rec.get('detail', '')
   if why == 'value-differs':
-    exp = ('a' + s + 'a') if rec['pos'] in ('concat', 'joinsep') else s
+    exp = ('a' + s + 'a') if rec['pos'] in (
+        'concat', 'joinsep', 'dcat', 'ucat', 'dparam', 'uparam') else s
     sig['indent_only'] = _IndentOnly(rec['got'], exp)
   if why.startswith('status-reject') or why.startswith('param-form'):
     sig['dollar_brace'] = '${' in s
@@ -258,7 +280,7 @@ def _ModelRuns(cfg, pool):
 # run to seconds of work; the evidence file says so.
 SMOKE = dict(n=2, pipe_full=1, pipe_nested_full=1, pipe_allforms=1,
              pipe_full_positions=strlit.POSITIONS,
-             pipe_sample=40, pipe_batch=40, sql_extra=4, sql_batch=50,
+             pipe_sample=40, flag_vals=10, pipe_batch=40, sql_extra=4, sql_batch=50,
              flag_cfgs=['FlagsQ2'], flag_model_only=[], flag_sim=None,
              grow_sample=4, flag_pipe=12)
 
@@ -382,8 +404,16 @@ def Run(tier):
   if judged != len(srecs) or fl_judged != len(frecs):
     machinery.append('TLC judged %d/%d string and %d/%d flag records' % (
         judged, len(srecs), fl_judged, len(frecs)))
-  for pos in strlit.POSITIONS + strlit.FN_POSITIONS:
-    for ctx in (('top',) if pos in strlit.FN_EXPR else ('top', 'nested')):
+  numeric_reads = collections.Counter(
+      r['pos'] for r in pipe
+      if r['pos'] in ['default', 'user'] + strlit.FLAG_POSITIONS and
+      _NUMERIC_RE.match(r['_key']))
+  for pos in ['default', 'user'] + strlit.FLAG_POSITIONS:
+    if not numeric_reads.get(pos):
+      machinery.append('required feature missing: number-looking flag value '
+                       'read in position %s' % pos)
+  for pos in strlit.POSITIONS + strlit.FN_POSITIONS + strlit.FLAG_POSITIONS:
+    for ctx in (('top',) if pos in strlit.TOP_ONLY else ('top', 'nested')):
       if not per_pos.get('%s/%s' % (pos, ctx)):
         machinery.append('position %s/%s never exercised' % (pos, ctx))
   per_dialect_fn = collections.Counter(
@@ -468,7 +498,9 @@ def Run(tier):
                           'sampled_longer': len(sample),
                           'per_position_context': dict(sorted(per_pos.items())),
                           'per_form': dict(sorted(per_form.items())),
-                          'per_status': dict(sorted(per_status.items()))},
+                          'per_status': dict(sorted(per_status.items())),
+                          'number_looking_flag_values_read': dict(
+                              sorted(numeric_reads.items()))},
       'compile_only': {'records': len(sql), 'programs': len(stasks),
                        'per_position': dict(sorted(collections.Counter(
                            r['pos'] for r in sql).items())),
